@@ -433,6 +433,9 @@ class GLRParser(Parser):
         # a single frontier processing.
         self._for_shifter.sort(key=lambda x: x[0].token_ahead.end_position, reverse=True)
         end_position = None
+        # Heads left from the previous frontiers (longer tokens) are shifted to
+        # the same new frontier as the heads of the current one.
+        frontier = max(h.frontier for h, _ in self._for_shifter) + 1 if self._for_shifter else 0
         while self._for_shifter:
             head, to_state = self._for_shifter.pop()
             if end_position is not None and head.token_ahead.end_position > end_position:
@@ -474,7 +477,7 @@ class GLRParser(Parser):
                     head.input_str,
                     to_state,
                     end_position,
-                    head.frontier + 1,
+                    frontier,
                     head.extra,
                     ambiguity=1,
                     layout_content=head.layout_content_ahead,
